@@ -76,7 +76,7 @@ class Run:
                     break
                 try:
                     if case.get("debug_log"): cand["debug_log"] = True
-                    o = call_impl(self.mod, cand)
+                    o = timed_impl(self.mod, cand)
                     f = self.mod.oracle(cand, o)
                 except Exception:
                     continue
@@ -163,7 +163,7 @@ class Run:
                     continue
                 seen.add(s)
                 c2 = self.shrink(c, s)
-                o2 = call_impl(mod, c2)
+                o2 = timed_impl(mod, c2)
                 f2 = mod.oracle(c2, o2)
                 path = self.write_replay("oracle", dict(case=c2, impl_obs=o2, what=f2 if f2 else f,
                                                         signature=s))
@@ -189,7 +189,7 @@ class Run:
             if sf:
                 c, o, f = sf[0]
                 c2 = self.shrink(c, sigof(f))
-                o2 = call_impl(mod, c2)
+                o2 = timed_impl(mod, c2)
                 f2 = mod.oracle(c2, o2)
                 path = self.write_replay("oracle", dict(case=c2, impl_obs=o2, what=f2 if f2 else f,
                                                         signature=sigof(f), found_by="failing-input search",
@@ -282,6 +282,11 @@ class _Swallow(logging.Handler):
             pass
 
 
+def timed_impl(mod, c):
+    """call_impl under the per-case watchdog (also used by the shrinker, the search and replay)"""
+    return run_with_timeout(lambda cc: call_impl(mod, cc), c, int(getattr(mod, "CASE_TIMEOUT", 120)))
+
+
 def call_impl(mod, c):
     """Run the implementation on a case.  Cases marked "debug_log" run with the `canopen` logger at DEBUG (records are
     formatted and dropped): the log level is configuration an application is free to choose and must not change
@@ -305,6 +310,9 @@ class _CaseTimeout(BaseException):
     pass
 
 
+_HANGS = [0]
+
+
 def run_with_timeout(f, c, seconds):
     """A case on which the implementation does not come back (e.g. a loop that never reaches its time-out check)
     becomes the observation Err(other, 'no result within N s') instead of hanging the check."""
@@ -314,11 +322,16 @@ def run_with_timeout(f, c, seconds):
         return f(c)
     def handler(signum, frame):
         raise _CaseTimeout()
+    # after several cases did not come back (which already is a violation) the others get a short leash,
+    # so that a check against a tree that blocks does not take hours
+    if _HANGS[0] >= 5:
+        seconds = min(seconds, 3)
     old = signal.signal(signal.SIGALRM, handler)
     signal.setitimer(signal.ITIMER_REAL, seconds)
     try:
         return f(c)
     except _CaseTimeout:
+        _HANGS[0] += 1
         return Err(E_OTHER, f"no result within {seconds} s")
     finally:
         signal.setitimer(signal.ITIMER_REAL, 0)
@@ -357,7 +370,7 @@ def replay(path):
         print("proof status now:", "ok" if pr["ok"] else pr["failing"])
         return 0 if pr["ok"] else 1
     c = j["case"]
-    o = call_impl(mod, c)
+    o = timed_impl(mod, c)
     f = mod.oracle(c, o)
     print("case:", json.dumps(c))
     print("implementation observation:", repr(o))
